@@ -170,7 +170,8 @@ def run_labels(job):
         t2 = t2 + [(n, []) for n, _ in t1[len(t2):]]              # a missing table shows as foreign / missing labels
     for (name, a), (_n2, b) in zip(t1, t2):
         where = {lab: i + 1 for i, lab in enumerate(a)}
-        rec["tables"].append({"name": name, "a": [list(x) for x in a], "bpos": [where.get(x, 0) for x in b]})
+        rec["tables"].append({"name": name, "a": [list(x) for x in a], "b": [list(x) for x in b], "bpos": [where.get(x, 0) for x in b]})
+        out["meta"]["foreign"] = out["meta"].get("foreign", 0) + sum(1 for x in b if x not in where)
     return out
 
 
@@ -541,9 +542,21 @@ def main(argv_tier=None, replay_path=None):
         print("DRIFT property=%s %s %s profile=%s: sizes differ from the layout model" % (PROP, d["kind"], d["scheme"], d["p"]))
     lab = [o for o in outs if o["meta"]["kind"] == "labels"]
     mov = [o for o in outs if o["meta"]["kind"] == "moves"]
+    # clause Moves:inbucket:realsfirst applies where the partially filled buckets read make "real entries first everywhere" a
+    # <= 1e-8 coincidence (same arithmetic as Order!LeadGuard; evidence only, TLC judges)
+    def lead_guard(inb):
+        den = 1
+        for bk in inb:
+            n, r = len(bk["occ"]), sum(1 for w in bk["occ"] if w[0])
+            if 0 < r < n:
+                den *= n if r in (1, n - 1) else n * (n - 1) // 2
+        return den
+    dp_guards = [min(lead_guard(o["rec"]["inb1"]), lead_guard(o["rec"]["inb2"])) for o in mov if o["meta"]["scheme"] == "DP17.Pi" and o["rec"]["setup"] == "built"]
+    total_fa += sum(2.0 / g for g in dp_guards if g >= NEED)
     sample_lab = copy.deepcopy(lab[len(lab) // 3]["rec"])
     for t in sample_lab["tables"]:
         t["a"] = [bytes(x).hex() for x in t["a"]]
+        t["b"] = [bytes(x).hex() for x in t["b"]]
     cov = {
         "states": model["distinct"], "transitions": model["generated"], "model_runs": model["runs"],
         "model": "Layer B spec/sse/Order.tla: MC_Order (%d states: all keyword permutations of %d profiles x 3 keys x dummy splits; LabelOrder; fails without sort / with sort on value), "
@@ -557,7 +570,10 @@ def main(argv_tier=None, replay_path=None):
                                 "placement_instances (BoundHolds), applied to the families below (FamilyOK: >= 12 blocks, product >= 1e8).",
                         "families": bounds, "false_alarm_probability_of_this_run_at_most": "%.3e" % total_fa},
         "traces_validated_against_impl": len(outs), "trace_validation_states": agg["distinct"],
-        "label_cases": len(lab), "label_cases_from_model_permutations": nperm, "moves_cases": len(mov),
+        "label_cases": len(lab),
+        "dp17_cases_where_realsfirst_clause_applies": "%d of %d" % (sum(1 for g in dp_guards if g >= NEED), len(dp_guards)),
+        "label_cases_with_identical_label_sets": sum(1 for o in lab if o["rec"]["setup"] == "built" and not o["meta"].get("foreign", 0)),
+        "label_cases_from_model_permutations": nperm, "moves_cases": len(mov),
         "evaluations": 2 * len(outs),
         "distinct_nontrivial": len({(o["meta"]["scheme"], o["meta"]["gi"], tuple(o["meta"]["p"]), tuple(o["meta"].get("sigma", ()))) for o in outs
                                     if o["meta"]["kind"] == "moves" or o["meta"]["sigma"] != sorted(o["meta"]["sigma"])}),
@@ -570,7 +586,8 @@ def main(argv_tier=None, replay_path=None):
     }
     return finish(PROP, tr, t0, cov, vio_out, seen,
                   assumptions=["(i) one fixed key per database; os.urandom and random as seen from the construction module replaced by a deterministic stream re-seeded identically for "
-                               "both setups (dummy keywords / padding labels of CT14 and ANSS16 are then the same); the IVs of the symmetric encryption stay random",
+                               "both setups (dummy keywords / padding labels of CT14 and ANSS16 are then the same); the IVs of the symmetric encryption stay random. Where a "
+                               "construction draws its padding from another source the two label sets differ and the clause speaks of the labels common to both plus the sortedness of each",
                                "(ii) Python's random and os.urandom are uniform; SSE-1's PRP behaves like a random permutation under a fresh key; "
                                "a two-run observation with the stated false-alarm bound, not a proof of uniformity",
                                "label order is the key order of the dicts obtained by unpickling EDB.serialize() after the header"])
